@@ -176,22 +176,20 @@ def detect_cvfix(exe):
 
 
 _tafix = None
+_genfix = None
 
 
-def detect_tafix(exe):
-    """which variant of mu_try_acquire_after_timeout_or_cancel's final stores does the code have?  Decided by conformance: a two-thread
-    probe (a reader-mode conditional wait cancelled while another reader holds the mutex) is model-checked under TaFix = TRUE and every
-    transition replayed; if the code leaves that specification, the other variant is tried."""
-    global _tafix
-    if _tafix is not None:
-        return _tafix
-    from muconfigs import mwt, C1
+def _probe_variant(exe, key, progs, tag):
+    """which variant of a repaired function does the code under test have?  Decided by conformance: a small probe configuration is
+    model-checked under <key> = TRUE and every transition replayed; if the code leaves that specification, the other variant is tried."""
+    from muconfigs import C1
     prepare_spec()
     probe = Run("C00", "quick", "model_checking")
     verdict = True
     for fx in (True, False):
-        conf = dict(progs=[P("R", mwt(1, cn=True), "RU"), P("R", "N", "RU")], NV=1, conds=C1, DbgFixed=True, CvFix=True, TaFix=fx)
-        out = run_config(probe, exe, "ta_probe_%s" % fx, conf, [], workers=2, prop="C00")
+        conf = dict(progs=progs, NV=1, conds=C1, DbgFixed=True, CvFix=True, TaFix=True if _tafix is None else _tafix, GenFix=True)
+        conf[key] = fx
+        out = run_config(probe, exe, "%s_probe_%s" % (tag, fx), conf, [], workers=2, prop="C00")
         try:
             os.unlink(out["sched"])
         except OSError:
@@ -204,8 +202,57 @@ def detect_tafix(exe):
         if not out["res"]["mismatch"]:
             verdict = fx
             break
-    _tafix = verdict
+    return verdict
+
+
+def detect_tafix(exe):
+    """mu_try_acquire_after_timeout_or_cancel's final stores (defect 6.7): a reader-mode conditional wait cancelled while another reader
+    holds the mutex."""
+    global _tafix
+    if _tafix is None:
+        from muconfigs import mwt
+        _tafix = _probe_variant(exe, "TaFix", [P("R", mwt(1, cn=True), "RU"), P("R", "N", "RU")], "ta")
     return _tafix
+
+
+def detect_genfix(exe):
+    """does wake_waiters move a generic-lock waiter that sits behind a native waiter to the mutex queue (defect 6.8)?  Observed, not
+    assumed: a native waiter, a generic-lock waiter behind it, a broadcast issued with the mutex held; in the operation log, who clears
+    the `waiting` flag that the generic-lock waiter set in its cv wait: wake_waiters (it was woken directly: repaired) or
+    nsync_mu_unlock_slow_ (it had been moved to the mutex queue)?"""
+    global _genfix
+    if _genfix is not None:
+        return _genfix
+    conf = dict(progs=[P("L", op("cvwait"), "U"), P("G1", "L", op("cvwait", x=9), "U"), P("G2", "L", "B", "U")], NV=1)
+    os.makedirs(os.path.join(WORK, "tlc"), exist_ok=True)
+    tr = os.path.join(WORK, "tlc", "genprobe.ndjson")
+    run_harness_env(exe, ["random", "40", "9", muconf.init_line(conf), REPLAYS, tr], dict(os.environ))
+    obj2, setter, moved = None, {}, False
+    for line in open(tr):
+        if '"k":"st"' not in line or '"o":"heap' not in line:
+            continue
+        d = json.loads(line)
+        if obj2 is None and d["t"] == 2 and d["fn"] == "nsync_cv_wait_with_deadline_generic" and d["a"] == 1:
+            obj2 = d["o"]
+        if d["a"] == 1:
+            setter[d["o"]] = d["fn"]
+        elif d["a"] == 0 and d["o"] == obj2 and d["fn"] == "nsync_mu_unlock_slow_" and setter.get(d["o"]) == "nsync_cv_wait_with_deadline_generic":
+            moved = True
+    os.unlink(tr)
+    _genfix = not moved
+    return _genfix
+
+
+def variants(exe):
+    """the spec parameters that name a variant of the code (a defect and its repair); observed from the code under test, never assumed"""
+    return {"DbgFixed": detect_dbgfixed(exe), "CvFix": detect_cvfix(exe), "TaFix": detect_tafix(exe), "GenFix": detect_genfix(exe)}
+
+
+def with_variants(conf, exe):
+    conf = dict(conf)
+    for k, v in variants(exe).items():
+        conf.setdefault(k, v)
+    return conf
 
 
 # which spec invariants / real-code oracles speak for which property
@@ -238,20 +285,15 @@ def run_family(run, exe, prop, configs, parallel=5, workers=3, env=None, cap_tou
     property's invariants confirmed by replay."""
     import concurrent.futures as cf
     prepare_spec()
-    dbg = detect_dbgfixed(exe)
-    cvfix = detect_cvfix(exe)
-    tafix = detect_tafix(exe)
-    run.cov["spec_parameters_from_code"] = {"DbgFixed": dbg, "CvFix": cvfix, "TaFix": tafix, "K": consts()["K"], "masks": {k: consts()[k] for k in ("WLOCK", "SPIN", "WAITING", "DESIG", "CONDB", "WRW", "LONGW", "ALLF", "RLOCK")},
+    var = variants(exe)
+    run.cov["spec_parameters_from_code"] = {"DbgFixed": var["DbgFixed"], "CvFix": var["CvFix"], "TaFix": var["TaFix"], "GenFix": var["GenFix"], "K": consts()["K"], "masks": {k: consts()[k] for k in ("WLOCK", "SPIN", "WAITING", "DESIG", "CONDB", "WRW", "LONGW", "ALLF", "RLOCK")},
                                             "LTW": consts()["LTW"], "LTR": consts()["LTR"]}
 
     exe_bin = build("h_mub") if any(c.get("Binary") for _, c in configs) else None
 
     def one(item):
         name, conf = item
-        conf = dict(conf)
-        conf.setdefault("DbgFixed", dbg)
-        conf.setdefault("CvFix", cvfix)
-        conf.setdefault("TaFix", tafix)
+        conf = with_variants(conf, exe)
         return name, conf, run_config(run, exe_bin if conf.get("Binary") else exe, name, conf, [], workers=workers, prop=prop, env=env, cap_tours=cap_tours, simulate=conf.get("_sim"))
     results = []
     with cf.ThreadPoolExecutor(parallel) as ex:
@@ -332,10 +374,10 @@ def trace_phase(run, exe, prop, tier, e):
         return
     shutil.copy(os.path.join(SPEC, "MuTrace.tla"), os.path.join(MC, "MuTrace.tla"))
     nruns = 120 if tier == "quick" else 3000
-    dbg, cvfix = detect_dbgfixed(exe), detect_cvfix(exe)
+    variants(exe)
 
     def one(i):
-        conf = dict(progs[i]); conf.setdefault("DbgFixed", dbg); conf.setdefault("CvFix", cvfix); conf.setdefault("TaFix", detect_tafix(exe))
+        conf = with_variants(progs[i], exe)
         tr = os.path.join(WORK, "tlc", "trace_%s_%d.ndjson" % (prop, i))
         res = run_harness_env(exe, ["random", str(nruns), str(seed() + 50 + i), muconf.init_line(conf), REPLAYS, tr], e)
         nlines = sum(1 for _ in open(tr))
@@ -373,10 +415,10 @@ def liveness_phase(run, prop, tier):
     names = LIVE.get(prop, []) + (LIVE_T.get(prop, []) if tier == "thorough" else [])
     if not names:
         return
-    dbg, cvfix = _dbgfixed if _dbgfixed is not None else True, _cvfix if _cvfix is not None else True
-
     def one(name):
-        conf = dict(muconfigs.FAM[name][0]); conf.setdefault("DbgFixed", dbg); conf.setdefault("CvFix", cvfix); conf.setdefault("TaFix", _tafix if _tafix is not None else True)
+        conf = dict(muconfigs.FAM[name][0])
+        for k, v in (("DbgFixed", _dbgfixed), ("CvFix", _cvfix), ("TaFix", _tafix), ("GenFix", _genfix)):
+            conf.setdefault(k, True if v is None else v)
         tla, cfg = muconf.write_mc(MC, "live_" + name, conf, consts(), [], spec="FairSpecU", export=False, props=["Termination"])
         return name, tlc_plain(tla, cfg, workers=3, cwd=MC, timeout=3000)
     with cf.ThreadPoolExecutor(4) as ex:
@@ -402,6 +444,70 @@ def fine_runs(run, exe, prop, tier, e):
         for v in res["viols"]:
             if v[0] in (ORACLE_OF.get(prop, set()) | ALWAYS | {"O-prog", "O-ret"}):
                 run.violation("%s|%s|fine %d" % (v[0], v[1], i), v[4], v[5])
+
+
+def generated_phase(run, exe, prop, tier, e):
+    """Generated client programs (tools/genprog.py): 3-5 threads drawn from the operation menu of Mu.tla's configurations, biased towards
+    the property's features, built so that every thread must finish under every schedule.  Each is run under random and priority-based
+    schedules with the oracles on (code side), and the executions of the first few are recorded and validated against MuTrace.tla
+    (code -> spec: every invariant of Mu.tla evaluated in every matched state).  Half of the programs also run on the
+    LONG_WAIT_THRESHOLD = 2 build, where the long-wait escalation is reached by ordinary contention."""
+    import genprog, concurrent.futures as cf
+    if prop not in genprog.FOCUS:
+        return
+    nprog = int(os.environ.get("VERIF_GENPROGS", 48 if tier == "quick" else 600))
+    nruns = 1500 if tier == "quick" else 8000
+    ntrace = 4 if tier == "quick" else 24
+    base = seed() * 100000
+    exe2 = build("h_mu", extra_defs=kdefs(2))
+    wanted = ORACLE_OF.get(prop, set()) | ALWAYS
+    shutil.copy(os.path.join(SPEC, "MuTrace.tla"), os.path.join(MC, "MuTrace.tla"))
+    variants(exe)
+
+    def one(i):
+        conf = genprog.gen(base + i, prop)
+        k2 = (i % 2 == 1)
+        if k2:
+            conf["kthr"] = 2
+        res = run_harness_env(exe2 if k2 else exe, ["random", str(nruns), str(base + i), muconf.init_line(conf), REPLAYS], e)
+        tv = None
+        if i < ntrace and not k2:
+            cv = with_variants(conf, exe)
+            tr = os.path.join(WORK, "tlc", "gtrace_%s_%d.ndjson" % (prop, i))
+            run_harness_env(exe, ["random", "40", str(base + 77 + i), muconf.init_line(cv), REPLAYS, tr], e)
+            nlines = sum(1 for _ in open(tr))
+            tla, cfg = muconf.write_mc(MC, "gtrace_%s_%d" % (prop, i), cv, consts(), ["TraceInv"], spec="TraceSpec", export=False, base="MuTrace",
+                                       extra_cfg="CONSTRAINT Progress\nPOSTCONDITION Accepted\n")
+            info = tlc_plain(tla, cfg, workers=1, cwd=MC, env=dict(os.environ, TRACE=tr), timeout=900)
+            m = re.search(r'<<"matched", (\d+), "of", (\d+)>>', info["out"])
+            tv = (nlines, int(m.group(1)) if m else 0, info)
+            os.unlink(tr)
+        return i, conf, res, tv
+    nv = 0
+    with cf.ThreadPoolExecutor(8) as ex:
+        for i, conf, res, tv in ex.map(one, range(nprog)):
+            run.add("evaluations", nruns); run.add("distinct_nontrivial", res["stats"].get("nontrivial", 0))
+            for v in res["viols"]:
+                if v[0] in wanted:
+                    nv += 1
+                    run.violation("%s|%s|generated %d" % (v[0], v[1], base + i), v[4], v[5])
+                else:
+                    run.note("oracle of another property fired in generated program %d: %s %s: %s" % (base + i, v[0], v[1], v[5][:160]))
+            if tv:
+                nlines, matched, info = tv
+                acc = info["ok"] and matched == nlines
+                run.cov.setdefault("recorded_traces", []).append({"program": "generated %d" % (base + i), "threads": len(conf["progs"]), "executions": 40, "events": nlines,
+                                                                  "matched": matched, "accepted": acc, "states": info["distinct"]})
+                if acc:
+                    run.add("traces_validated_against_impl", 40)
+                elif info["violated"]:
+                    run.violation("TLC|%s|recorded trace of generated program %d" % (info["violated"], base + i), "-",
+                                  "an invariant of Mu.tla fails on a state of a recorded execution of the real code (matched %d of %d events): %s" % (matched, nlines, info["out"][-300:]))
+                else:
+                    run.note("DIVERGENCE: recorded executions of generated program %d are not behaviours of Mu.tla (longest matched prefix %d of %d events); not a violation by itself" % (base + i, matched, nlines))
+                    run.cov["conformant"] = False
+    run.cov["generated_programs"] = {"programs": nprog, "schedules_each": nruns, "threads": "3-5", "on_K2_build": nprog // 2, "traces_validated": ntrace,
+                                     "generator": "tools/genprog.py (seed %d..%d, focus %s)" % (base, base + nprog - 1, prop), "violations": nv}
 
 
 def mu_check(prop, tier, replay, extra_rule="", extra_assume=(), env=None, post=None, family=None, cap_tours=None):
@@ -448,6 +554,7 @@ def mu_check(prop, tier, replay, extra_rule="", extra_assume=(), env=None, post=
     if cap_tours:
         run.cov["tours_capped_at"] = cap_tours
         run.cov["exhaustive"] = False
+    generated_phase(run, exe, prop, tier, e)
     fine_runs(run, exe, prop, tier, e)
     trace_phase(run, exe, prop, tier, e)
     liveness_phase(run, prop, tier)
